@@ -48,10 +48,10 @@ theorem ptyS_of_ok {c : Nat} {s : PStmt} (h : OkS c s) : ptyS s = true := by
   | brk => simp [ptyS]
   | cont => simp [ptyS]
   | block _ ih => simp only [ptyS]; exact ptySs_of_all _ ih
-  | ifb hc _ _ ih1 ih2 => simp [ptyS, ptyE_of_ok hc, ih1, ih2]
-  | loop hc _ _ ih1 ih2 => simp [ptyS, ptyE_of_ok hc, ih1, ih2]
-  | tryb _ _ _ ih1 ih2 => simp [ptyS, ih1, ih2]
-  | preempt _ _ ih => simpa [ptyS] using ih
+  | ifb hc _ _ _ _ ih1 ih2 => simp [ptyS, ptyE_of_ok hc, ih1, ih2]
+  | loop hc _ _ _ _ ih1 ih2 => simp [ptyS, ptyE_of_ok hc, ih1, ih2]
+  | tryb _ _ _ _ _ ih1 ih2 => simp [ptyS, ih1, ih2]
+  | preempt _ _ _ ih => simpa [ptyS] using ih
 
 theorem ptyProg_of_ok {p : PProgram} (h : ProgOK p) : ptyProg p = true := by
   simp only [ptyProg, Bool.and_eq_true, List.all_eq_true]
